@@ -48,7 +48,25 @@ fn main() {
     let seed = std::env::var("VERIF_SEED").ok().and_then(|x| x.parse::<u64>().ok()).unwrap_or(1);
     let ctx = Ctx { prop: prop.clone(), tier, seed, replay, start: Instant::now(), threads: common::par::default_threads() };
     let _ = props::CTX.set(Ctx { prop: ctx.prop.clone(), tier: ctx.tier, seed: ctx.seed, replay: ctx.replay.clone(), start: ctx.start, threads: ctx.threads });
-    let code = match prop.as_str() {
+    // a panic inside a check's own code (outside its catch_unwind sections) must not lose the violations
+    // recorded so far: report them (exit 1) or, if there are none, exit 2 as a machinery error
+    let code = match std::panic::catch_unwind(std::panic::AssertUnwindSafe(|| dispatch(&prop, &ctx))) {
+        Ok(c) => c,
+        Err(e) => {
+            eprintln!("machinery: the check's own code panicked: {}", common::par::panic_message(&e));
+            if common::report::vio_count() > 0 {
+                props::hang_exit(&prop, "checker-panic")
+            } else {
+                2
+            }
+        },
+    };
+    std::process::exit(code);
+}
+
+fn dispatch(prop: &str, ctx: &Ctx) -> i32 {
+    let ctx = ctx;
+    match prop {
         "C01" => props::c01::run(&ctx),
         "C02" => props::c02::run(&ctx),
         "C03" => props::c03::run(&ctx),
@@ -61,16 +79,17 @@ fn main() {
         "C10" => props::c10::run(&ctx),
         "C11" => props::c11::run(&ctx),
         "C12" => props::c12::run(&ctx),
+        "C13" => props::c13::run(&ctx),
         "C14" => props::c14::run(&ctx),
         "C15" => props::c15::run(&ctx),
         "C16" => props::c16::run(&ctx),
         "C17" => props::c17::run(&ctx),
         "C18" => props::c18::run(&ctx),
         "C19" => props::c19::run(&ctx),
+        "C20" => props::c20::run(&ctx),
         _ => {
             eprintln!("machinery: no check registered for {}", prop);
             2
         },
-    };
-    std::process::exit(code);
+    }
 }
